@@ -22,7 +22,8 @@ E(e) == e.id
 L(ls) == [i \in DOMAIN ls |-> [j \in DOMAIN ls[i] |-> E(ls[i][j])]]
 Out(r) == IF r.ok THEN r.pos ELSE 0
 
-TrustedSets == << {"privnet", "loop"}, {"privnet"}, {"cust"}, {"cust", "privnet", "loop"} >>
+\* the last one is the empty set: a range provider that returns nothing trusts nothing
+TrustedSets == << {"privnet", "loop"}, {"privnet"}, {"cust"}, {"cust", "privnet", "loop"}, {} >>
 
 Vec(ls) ==
   IF ~(\A pre \in AttackPrefixes, t \in DOMAIN TrustedSets, n \in 1..3 : Unspoofable(ls, pre, TrustedSets[t], n))
@@ -30,7 +31,7 @@ Vec(ls) ==
   ELSE [h |-> L(ls),
         rtc |-> [n \in 1..3 |-> Out(RightmostTrustedCount(ls, n))],
         rnp |-> [t \in 1..2 |-> Out(RightmostNonPrivate(ls, TrustedSets[t]))],
-        rtr |-> [t \in 1..2 |-> Out(RightmostTrustedRange(ls, TrustedSets[t + 2]))],
+        rtr |-> [t \in 1..3 |-> Out(RightmostTrustedRange(ls, TrustedSets[t + 2]))],
         lnp |-> [t \in 1..2 |-> [lim \in 1..3 |-> Out(LeftmostNonPrivate(ls, lim, TrustedSets[t]))]],
         single |-> Out(SingleHeader(ls)),
         chain |-> Out(Chain(<<RightmostTrustedRange(ls, {"cust"}), RightmostTrustedCount(ls, 3), LeftmostNonPrivate(ls, 2, {"privnet", "loop"})>>))]
